@@ -150,11 +150,9 @@ Rank(k) == CASE k \in {"amp", "sfx", "elem"} -> 0 [] k = "ph" -> 1 [] k = "id" -
 RECURSIVE CanonList(_), CanonCompound(_)
 CanonCompound(cmp) ==
   LET deep   == Sq([s \in 1..Len(cmp) |-> IF cmp[s].k = "fn" THEN [cmp[s] EXCEPT !.arg = CanonList(cmp[s].arg)] ELSE cmp[s]])
-      lastId == IF \E s \in 1..Len(deep) : deep[s].k = "id"
-                THEN CHOOSE s \in 1..Len(deep) : deep[s].k = "id" /\ \A u \in (s+1)..Len(deep) : deep[u].k # "id"
-                ELSE 0
+  \* (until /repo 1596550 only the last id selector of a compound was stored; all of them are kept now)
   IN Cat(Sq([r \in 1..6 |-> Cat(Sq([s \in 1..Len(deep) |->
-            IF Rank(deep[s].k) = r - 1 /\ (deep[s].k # "id" \/ s = lastId) THEN <<deep[s]>> ELSE <<>>]))]))
+            IF Rank(deep[s].k) = r - 1 THEN <<deep[s]>> ELSE <<>>]))]))
 CanonList(L) == Sq([i \in 1..Len(L) |-> Sq([k \in 1..Len(L[i]) |-> [comb |-> L[i][k].comb, cmp |-> CanonCompound(L[i][k].cmp)]])])
 
 ---------------------------------------------------------------------------
